@@ -323,6 +323,14 @@ def detector_rule(ctx, rule="R07.3"):
     fn = ctx.prog.func(FB, "_pos_equal")
     tol = sorted({ast.unparse(n.func) for n in ast.walk(fn) if isinstance(n, ast.Call) and ast.unparse(n.func) in ("np.allclose", "np.isclose")})
     ctx.check(not tol, rule, FB + "::_pos_equal", "the position-change detector gating reuse is exact (tolerance-based calls: %s)" % tol, "tolerance:" + ",".join(tol))
+    # the comparison of the coordinates runs for EVERY axis: it sits inside the loop over the axis pairs and a difference returns False there
+    loops = [l for l in fn.body if isinstance(l, ast.For) and "zip(pos1, pos2)" in ast.unparse(l.iter)]
+    cmp_calls = ("np.allclose", "np.array_equal", "np.isclose", "np.all")
+    in_loop = [c for l in loops for c in ast.walk(l) if isinstance(c, ast.Call) and ast.unparse(c.func) in cmp_calls]
+    outside = [c for c in ast.walk(fn) if isinstance(c, ast.Call) and ast.unparse(c.func) in cmp_calls and not any(c is x for x in in_loop)]
+    ok_axes = len(loops) == 1 and bool(in_loop) and not outside and any(isinstance(i_, ast.If) and any(isinstance(r, ast.Return) and ast.unparse(r.value) == "False" for r in i_.body)
+                                                                         and any(c is x for c in in_loop for x in ast.walk(i_.test)) for i_ in loops[0].body)
+    ctx.check(ok_axes, rule, FB + "::_pos_equal", "the coordinates of every axis are compared inside the loop over the axes, a difference on any axis answers False (comparisons outside the loop: %d)" % len(outside), "every-axis")
     lens = [ast.unparse(n.test) for n in ast.walk(fn) if isinstance(n, ast.If)]
     ctx.check("len(pos1) != len(pos2)" in lens and "len(p1) != len(p2)" in lens and "pos1 is None or pos2 is None" in lens, rule, FB + "::_pos_equal",
               "differing number of axes / points or a missing position tuple count as changed", "shape")
